@@ -183,8 +183,11 @@ def may_write(prog, rep):
             isinstance(t, (ast.Attribute, ast.Subscript)) and root_name(t) == "self" for t in (n.targets if isinstance(n, ast.Assign) else [n.target]))
             for n in ast.walk(f.node))
         n_writer_self += has_self_write
+        api_visible = (not f.name.startswith("_")) or (f.name.startswith("__") and f.name.endswith("__"))
         for p, (node, desc) in sorted(writes[key].items()):
-            ex = EXEMPT.get((f.qual, p))
+            # a private helper filling a container handed in by its caller is an implementation detail: its effect is
+            # charged to the callers through the summaries; only API-visible functions expose their parameters to users
+            ex = EXEMPT.get((f.qual, p)) or (None if api_visible else "private helper: charged to its callers")
             rep.oblige(rid, bool(ex), where=f.qual, what=f"{p}: {desc}")
             if not ex:
                 rep.add(Finding("C15", rid, f.module, f.qual, node,
@@ -200,10 +203,13 @@ def may_write(prog, rep):
         init = conv.methods["__init__"].node
         ok = False
         st = None
-        for n in ast.walk(init):
-            if isinstance(n, ast.Assign) and ast.unparse(n.targets[0]) == "self.df":
+        dfparam = [a.arg for a in init.args.args[1:2]]
+        for n in sorted([x for x in ast.walk(init) if isinstance(x, ast.Assign)], key=lambda x: x.lineno):
+            # the first binding of an attribute to something derived from the frame parameter must be a copy
+            if isinstance(n.targets[0], ast.Attribute) and ast.unparse(n.targets[0].value) == "self" and dfparam and dfparam[0] in {m.id for m in ast.walk(n.value) if isinstance(m, ast.Name)}:
                 st = n
                 ok = is_fresh_expr(n.value)
+                break
         rep.oblige(rid2, ok, where="DataFrameToFlodymDataConverter.__init__", what=ast.unparse(st) if st else "self.df never bound")
         if not ok:
             rep.add(Finding("C15", rid2, conv.module, "DataFrameToFlodymDataConverter.__init__", st or init,
@@ -234,9 +240,8 @@ def run(prog, rep):
     rep.rule("C15.independent-result", "results share no memory and no dimension list with any input")
     rep.rule("C15.ndarray-copied", "an ndarray assigned through [] is copied")
     aspects = {("*", "purity"): "C15.inputs-unchanged", ("*", "fresh"): "C15.independent-result", ("setitem", "copied"): "C15.ndarray-copied"}
-    for a in ("copy", "copy_dims", "__setitem__", "cast_values_to"):
+    for a in ("copy", "__setitem__", "cast_to"):
         prog.method("FlodymArray", a)
-    prog.method("SubArrayHandler", "to_flodym_array")
     run_array_property(prog, rep, "C15", ["arith", "reduce", "index", "misc", "illformed", "producers", "stocks", "lifetime", "reduce@uniform", "index@uniform"], aspects)
     may_write(prog, rep)
     rep.rules["C15.inputs-unchanged"]["floor"] = 2500
